@@ -139,3 +139,11 @@ Example toy_run_even_odd :
   parity (mulT toy 1 (G toy)) = Ok 0 /\ parity (mulT toy 3 (G toy)) = Ok 1 /\
   toy_sign_then_verify 1 = true /\ toy_sign_then_verify 3 = true.
 Proof. vm_compute. repeat split; reflexivity. Qed.
+
+(* The constants written in the model are the constants of the SOURCE: coq/Generated/SrcConsts.v is regenerated
+   from /repo/buidl/*.py by harness/gen_coq_consts.py on every run; the statements are spelled out in
+   Proofs/ConstsTie.v (secp256k1_is_source_stmt). *)
+From V Require Proofs.ConstsTie.
+Theorem C02_constants_match_source : ConstsTie.secp256k1_is_source_stmt.
+Proof. exact ConstsTie.secp256k1_is_source. Qed.
+Print Assumptions C02_constants_match_source.
